@@ -4,6 +4,7 @@ import (
 	"go/constant"
 	"go/token"
 	"go/types"
+	"math/big"
 
 	"golang.org/x/tools/go/ssa"
 )
@@ -31,6 +32,12 @@ type VSA struct {
 	Entry map[int]bool
 
 	summaries map[ssa.CallInstruction]*vsaSummary
+
+	// cur is the block whose branch condition is being evaluated; over / overLen give the value (the length) of a loop
+	// phi while its loop's continue condition is replayed (loopFinal).
+	cur     *ssa.BasicBlock
+	over    map[*ssa.Phi]int64
+	overLen map[*ssa.Phi]int64
 }
 
 // vsaSummary is the analysis of a multi-block repository helper at one call
@@ -224,6 +231,7 @@ func (a *VSA) Run() (map[*ssa.BasicBlock]map[int]bool, []tuple) {
 			}
 			continue
 		}
+		a.cur = blk
 		for idx := range in {
 			v, ok := a.eval(ifi.Cond, tuples[idx], 0)
 			if !ok {
@@ -269,6 +277,22 @@ func (a *VSA) eval(v ssa.Value, t tuple, depth int) (int64, bool) {
 			return 0, true
 		}
 		return 0, false
+	}
+	if p, isPhi := v.(*ssa.Phi); isPhi && p.Comment != "&&" && p.Comment != "||" {
+		if x, ok := a.over[p]; ok {
+			return x, true
+		}
+		return a.loopFinal(p, false, t, depth)
+	}
+	if c, isCall := v.(*ssa.Call); isCall && len(c.Call.Args) == 1 {
+		if bi, isB := c.Call.Value.(*ssa.Builtin); isB && bi.Name() == "len" {
+			if p, isPhi := c.Call.Args[0].(*ssa.Phi); isPhi {
+				if x, ok := a.overLen[p]; ok {
+					return x, true
+				}
+				return a.loopFinal(p, true, t, depth)
+			}
+		}
 	}
 	if len(a.Tracked) > 0 {
 		if _, isParam := v.(*ssa.Parameter); isParam || isCallLike(v) || isLoad(v) {
@@ -637,4 +661,102 @@ func (p *Prog) initNonNil(g *ssa.Global) bool {
 		}
 	}
 	return n == 1 && good
+}
+
+// loopFinal evaluates, for a branch outside its loop, the value a counter phi (or the length a front-consumed cursor
+// phi) has when the loop is left through its header: the loop's continue condition is replayed from the initial
+// value, step by step, for the tuple at hand. It applies only when the header's exit is the only way from the loop to
+// the block under evaluation (a break or any other exit must not reach it).
+func (a *VSA) loopFinal(p *ssa.Phi, isLen bool, t tuple, depth int) (int64, bool) {
+	if a.cur == nil || depth > 20 {
+		return 0, false
+	}
+	var init ssa.Value
+	var step int64
+	if isLen {
+		in, k, ok := cursorPhi(p)
+		if !ok {
+			return 0, false
+		}
+		kv, okk := new(big.Int).SetString(k, 10)
+		if !okk || !kv.IsInt64() || kv.Int64() <= 0 {
+			return 0, false
+		}
+		init, step = in, -kv.Int64()
+	} else {
+		in, st, ok := inductionPhi(p)
+		if !ok {
+			return 0, false
+		}
+		sv, oks := parseStep(st)
+		if !oks || !sv.IsInt64() || sv.Sign() == 0 {
+			return 0, false
+		}
+		init, step = in, sv.Int64()
+	}
+	header := p.Block()
+	loop := map[*ssa.BasicBlock]bool{}
+	for _, e := range BackEdges(a.B.Fn) {
+		if e.To == header {
+			for b := range LoopBlocks(e) {
+				loop[b] = true
+			}
+		}
+	}
+	if len(loop) == 0 || loop[a.cur] || len(header.Instrs) == 0 {
+		return 0, false
+	}
+	ifi, ok := header.Instrs[len(header.Instrs)-1].(*ssa.If)
+	if !ok || loop[header.Succs[0]] == loop[header.Succs[1]] {
+		return 0, false
+	}
+	for b := range loop {
+		for _, w := range b.Succs {
+			if !loop[w] && b != header && ReachableFrom(w, nil)[a.cur] {
+				return 0, false
+			}
+		}
+	}
+	var x int64
+	if isLen {
+		s := "len(" + a.B.Of(init, nil).String() + ")"
+		found := false
+		for i, tr := range a.Tracked {
+			if tr == s {
+				x, found = t[i], true
+			}
+		}
+		if !found {
+			return 0, false
+		}
+	} else {
+		v, ok := a.eval(init, t, depth+1)
+		if !ok {
+			return 0, false
+		}
+		x = v
+	}
+	if a.over == nil {
+		a.over, a.overLen = map[*ssa.Phi]int64{}, map[*ssa.Phi]int64{}
+	}
+	m := a.over
+	if isLen {
+		m = a.overLen
+	}
+	if _, busy := m[p]; busy {
+		return 0, false
+	}
+	defer delete(m, p)
+	for n := 0; n < 4096; n++ {
+		m[p] = x
+		c, ok := a.eval(ifi.Cond, t, depth+1)
+		if !ok {
+			return 0, false
+		}
+		if (c != 0) != loop[header.Succs[0]] {
+			return x, true
+		}
+		x += step
+	}
+	return 0, false
 }
